@@ -13,6 +13,12 @@ CONSTANTS MaxN = 2
   HoldData <- DataHoldQuick
   HoldForms <- FormsHoldQuick
   HoldRc = {FALSE}
+  Muts = {TRUE}
+  MutScenarios <- ScenMutQuick
+  MutData <- DataMutQuick
+  MutForms <- FormsMutQuick
+  MutRc = {FALSE}
+  MaxRep = 2
   KeepHistory = FALSE
   Design = "allowed"
 VIEW view
